@@ -160,8 +160,7 @@ def run_mc(prop, tier):
         res = {"name": name, "module": module, "generated": st[0], "distinct": st[1], "depth": st[2], "rc": rc,
                "wall": round(time.time() - t0, 1), "drivers": _parse_tla_json_lines(out, "drv")}
         shutil.rmtree(wd, ignore_errors=True)
-        with open(cfile, "w") as f:
-            json.dump(res, f)
+        rv.dump_json_atomic(cfile, res)
         results.append(res)
     log("%s: %d MC configurations, %d distinct states, %d transitions" % (
         prop, len(results), sum(r["distinct"] for r in results), sum(r["generated"] for r in results)))
@@ -697,8 +696,7 @@ def run_suite(prop, name, drivers, profile, tier, seed):
                        for d in (drivers[0], drivers[len(drivers) // 2])], "viol_drivers": vd}
     log("suite %s/%s (%s): %d drivers, %d events, %d VIOL, %d DRIFT, %d process death(s), harness %.1fs, validation %.1fs" % (
         prop, name, profile, len(drivers), val["events"], len(viol), len(drift), died, t_h, t_v))
-    with open(cfile, "w") as f:
-        json.dump(res, f)
+    rv.dump_json_atomic(cfile, res)
     return res
 
 
